@@ -177,6 +177,15 @@ class Evaluator:
             raise EngineError(f'no child count in {nd.raw!r}')
         return uint(nd.nchild)
 
+    def raw(self, nd, row, ind, r):
+        """value of a node without differentiation placeholders"""
+        save, self.wrt = self.wrt, None
+        savec, self.cache = self.cache, {}
+        try:
+            return self.value(nd, row, ind, r)
+        finally:
+            self.wrt, self.cache = save, savec
+
     def literal(self, uid: int, actual):
         if self.wrt is not None and uid in self.wrt:
             p = z3.Real(f'P!{uid}!{len(self.placeholders)}')
@@ -311,13 +320,16 @@ class Evaluator:
             for i in range(n):
                 bnode = self.child(nd, i * 6 + 1)
                 xnode = self.child(nd, i * 6 + 4)
+                bid = uint(nd.items[i * 6 + 2])
                 bname = nd.items[i * 6 + 3]
                 xname = nd.items[i * 6 + 6]
-                # the C++ looks the values up by *name* among the literal children
+                # the C++ looks the values up by *name* among the literal children ...
                 if bnode.name != bname or xnode.name != xname:
                     raise EngineError(f'bioLinearUtility: names {bname},{xname} do not match children '
                                       f'{bnode.name},{xnode.name}')
-                v = v + self.value(bnode, row, ind, r) * self.value(xnode, row, ind, r)
+                # ... and attributes the derivative of the term to the literal id written in the signature
+                bval = self.literal(bid, self.raw(bnode, row, ind, r))
+                v = v + bval * self.raw(xnode, row, ind, r)
             return v
         if typ in ('_bioLogLogit', '_bioLogLogitFullChoiceSet'):
             n = self.nchildren(nd)
